@@ -2,7 +2,9 @@
     Model: Recorder/Exec.v ([rec_exec], the decorators while recording; [plain_exec], the undecorated twin),
     Recorder/Run.v ([record_run], the decorated operation with its recording scope). *)
 From Playback Require Import Base.Str Values.PyVal Values.KeyFormat Recorder.Dsl Recorder.Exec Recorder.Run Recorder.RecFacts.
-From Coq Require Import QArith.
+From Playback Require Import Recorder.Threads Recorder.ThreadsFacts.
+From Coq Require Import QArith List.
+Import ListNotations.
 
 (** For every program (any nesting of intercepted inputs and outputs, try/except, discards and forced
     sampling from the operation or from intercepted bodies, recording switched on/off on the way,
@@ -31,6 +33,30 @@ Theorem C04_disabled_passthrough :
     let '(ob, w') := record_run draws en P op save_fails s w in ob_cass ob = [] /\ w' = w.
 Proof. exact record_run_disabled. Qed.
 Print Assumptions C04_disabled_passthrough.
+
+(** Racing threads (model Recorder/Threads.v: the recorder methods that touch the active recording, as sequences
+    of atomic accesses to the shared fields; a region under self._finalization_lock is one step).  For ANY
+    number of threads, each calling any sequence of discard_recording / force_sample_recording / record_data /
+    an interception's capture / current_recording_id / the end of the recording scope, under EVERY schedule
+    (no preemption bound): no method ever fails on a vanished recording, so nothing of the machinery reaches
+    the service; the forcing flag never outlives the recording; recording and parameters vanish together. *)
+Theorem C04_no_leak_under_any_interleaving :
+  forall n sched,
+  let '(sh, ls) := run Fixed sched (sh0, repeat idle_thread n) in
+  (forall l, In l ls -> crashed l = false) /\ (fin sh <= 1)%nat /\ (ar sh = false -> fs sh = false) /\ ar sh = ap sh.
+Proof. exact fixed_safe. Qed.
+Print Assumptions C04_no_leak_under_any_interleaving.
+
+(** The code before /repo 359c201 (variant [Legacy], every access to self._active_recording separate): the same
+    statement is false - a discard racing with another discard, record_data, an output capture, forced sampling,
+    current_recording_id or the end of the scope makes a method fail (AttributeError into the service). *)
+Theorem C04_legacy_refuted :
+  (exists sched, let '(_, ls) := run Legacy sched (sh0, [start MDiscard; start MDiscard]) in existsb crashed ls = true) /\
+  (forall m, In m [MRecordData; MFinalise; MForce; MCurrentId] ->
+   exists sched, let '(_, ls) := run Legacy sched (sh0, [start m; start MDiscard]) in existsb crashed ls = true) /\
+  (exists sched, let '(sh, _) := run Legacy sched (sh0, [start MForce; start MDiscard]) in ar sh = false /\ fs sh = true).
+Proof. exact (conj legacy_discard_race_crashes (conj legacy_other_races_crash legacy_force_outlives_recording)). Qed.
+Print Assumptions C04_legacy_refuted.
 
 (** non-vacuity: an operation whose input's key cannot be built (unserializable argument), whose body
     discards the recording while the interception is in flight and then raises, is transparent, and the
